@@ -266,8 +266,103 @@ def shard_structured(arg):
   return n, nontrivial, bad
 
 
+# ---- (C) OpenMetrics token sequences -----------------------------------------------------------------------------------
+OM_TOKENS = ['b="c"', 'd="e"', 'k="v\\"w"', 'b=""', '="x"', 'junk', 'b=c', 'b="c', '"x"', '', 'a="1"']
+
+
+def tokenize_om(x):
+  """The documented OpenMetrics form name{tag="value",...}: tags are non-empty and free of '=', values are non-empty
+  quoted strings in which only \\" and \\\\ are escaped, pairs are separated by ','.  (name, [(tag, value)]) or None."""
+  if not x.endswith('}') or '{' not in x:
+    return None
+  name, raw = x[:-1].split('{', 1)
+  tags = []
+  i = 0
+  while i < len(raw):
+    j = raw.find('=', i)
+    if j <= i or raw[j + 1:j + 2] != '"':
+      return None
+    tag = raw[i:j]
+    k = j + 2
+    val = ''
+    while True:
+      if k >= len(raw):
+        return None
+      c = raw[k]
+      if c == '\\':
+        if raw[k + 1:k + 2] in ('"', '\\'):
+          val += raw[k + 1]
+          k += 2
+          continue
+        return None
+      if c == '"':
+        break
+      val += c
+      k += 1
+    if not val:
+      return None
+    k += 1
+    tags.append((tag, val))
+    if k == len(raw):
+      break
+    if raw[k] != ',':
+      return None
+    i = k + 1
+  return name, tags
+
+
+def shard_om_tokens(arg):
+  names, seqs = arg
+  N = Norm()
+  n = nontrivial = 0
+  bad = []
+
+  def report(key, what, rep):
+    if len(bad) < 4 and not any(b[0] == key for b in bad):
+      bad.append((key, what, rep))
+  for name in names:
+    for seq in seqs:
+      x = name + '{' + ','.join(seq) + '}'
+      if ';' in x or not x.endswith('"}'):
+        continue      # not an OpenMetrics-looking string (judged by the other parts)
+      n += 1
+      acc, nx, dis = N.norm(x)
+      if dis:
+        report('entry-points-disagree', 'for %r: %s' % (x, dis), {'string': x})
+        continue
+      t = tokenize_om(x)
+      ok = t is not None and t[0] == name and len(set(k for k, _ in t[1])) == len(t[1]) and well_formed(name, t[1])
+      if t is not None and len(set(k for k, _ in t[1])) != len(t[1]):
+        continue      # duplicate keys: not judged
+      if ok:
+        want = N.norm(render_carbon(name, t[1]))
+        if not acc:
+          report('rejects-well-formed:openmetrics', 'well-formed %r rejected (OpenMetrics syntax)' % (x,), {'string': x})
+        elif want[0] and want[1] != nx:
+          report('syntax-dependence', 'OpenMetrics %r -> %r but the same tags in carbon syntax %r -> %r' % (
+            x, nx, render_carbon(name, t[1]), want[1]), {'string': x, 'other': render_carbon(name, t[1])})
+        else:
+          nontrivial += 1
+      elif nx != x:
+        # not a well-formed OpenMetrics series (and, containing no ';', a plain untagged name as a carbon path):
+        # it must be stored and relayed exactly as received
+        report('ill-formed-openmetrics-altered', '%r is not a well-formed OpenMetrics series but was stored/relayed as %r' % (x, nx),
+               {'string': x})
+  return n, nontrivial, bad
+
+
 def run(ctx):
   env.boot()
+  om_len = ctx.pick(3, 4)
+  seqs = [t for k in range(1, om_len + 1) for t in itertools.product(OM_TOKENS, repeat=k)]
+  ores = core.pmap(shard_om_tokens, [(('m', 'a.b', '~m'), seqs[i::16]) for i in range(16)], chunksize=1)
+  n3 = nt3 = 0
+  for cnt, nontriv, bad in ores:
+    n3 += cnt
+    nt3 += nontriv
+    for key, what, rep in bad:
+      ctx.violation(key, what, rep)
+  ctx.add(openmetrics_token_sequences=n3, openmetrics_well_formed_agreeing=nt3)
   maxlen = ctx.pick(4, 5)
   prefixes = [''] + [a + b for a in STR_ALPHABET for b in STR_ALPHABET] + list(STR_ALPHABET)
   tasks = [(p, maxlen if len(p) == 2 else len(p)) for p in prefixes]
